@@ -286,6 +286,69 @@ theorem cart2_laplace_integral_zero_periodic (dx dy : K) (hdx : dx ≠ 0) (hdy :
     rw [sumTo_congr _ (fun _ => (0:K)) n (by intro i _ _; rw [hy0, hy1]; ring), sumTo_zero]
   rw [h1, h2]; simp
 
+theorem cartLaplace_3d (dx dy dz : K) (a : Arr K) (i j k : Int) :
+    cartLaplace [dx, dy, dz] a [] [i, j, k] =
+      (a [i + 1, j, k] - 2 * a [i, j, k] + a [i - 1, j, k]) / (dx * dx)
+        + (a [i, j + 1, k] - 2 * a [i, j, k] + a [i, j - 1, k]) / (dy * dy)
+        + (a [i, j, k + 1] - 2 * a [i, j, k] + a [i, j, k - 1]) / (dz * dz) := by
+  simp [cartLaplace, lsum, d2, shift, List.range_succ]
+  push_cast
+  ring_nf
+
+/-- 3-d Cartesian Laplacian with zero-flux ghost cells on all six faces: the integral vanishes for
+any `n × m × l` cells and anisotropic spacings -/
+theorem cart3_laplace_integral_zero_neumann (dx dy dz : K) (hdx : dx ≠ 0) (hdy : dy ≠ 0) (hdz : dz ≠ 0)
+    (a : Arr K) (n m l : Nat)
+    (hx0 : ∀ j k : Nat, a [0, (j:Int), (k:Int)] = a [1, (j:Int), (k:Int)])
+    (hx1 : ∀ j k : Nat, a [(n:Int) + 1, (j:Int), (k:Int)] = a [(n:Int), (j:Int), (k:Int)])
+    (hy0 : ∀ i k : Nat, a [(i:Int), 0, (k:Int)] = a [(i:Int), 1, (k:Int)])
+    (hy1 : ∀ i k : Nat, a [(i:Int), (m:Int) + 1, (k:Int)] = a [(i:Int), (m:Int), (k:Int)])
+    (hz0 : ∀ i j : Nat, a [(i:Int), (j:Int), 0] = a [(i:Int), (j:Int), 1])
+    (hz1 : ∀ i j : Nat, a [(i:Int), (j:Int), (l:Int) + 1] = a [(i:Int), (j:Int), (l:Int)]) :
+    intCart3Laplace dx dy dz a n m l = 0 := by
+  unfold intCart3Laplace
+  have split : ∀ i j k : Nat, dx * dy * dz * cartLaplace [dx, dy, dz] a [] [(i:Int), (j:Int), (k:Int)] =
+      dy * dz * (dx * ((a [(i:Int) + 1, (j:Int), (k:Int)] - 2 * a [(i:Int), (j:Int), (k:Int)]
+          + a [(i:Int) - 1, (j:Int), (k:Int)]) / (dx * dx)))
+      + dx * dz * (dy * ((a [(i:Int), (j:Int) + 1, (k:Int)] - 2 * a [(i:Int), (j:Int), (k:Int)]
+          + a [(i:Int), (j:Int) - 1, (k:Int)]) / (dy * dy)))
+      + dx * dy * (dz * ((a [(i:Int), (j:Int), (k:Int) + 1] - 2 * a [(i:Int), (j:Int), (k:Int)]
+          + a [(i:Int), (j:Int), (k:Int) - 1]) / (dz * dz))) := by
+    intro i j k; rw [cartLaplace_3d]; ring
+  simp only [split, sumTo_add]
+  -- x part: bring the i-sum inside
+  have hX : sumTo (fun i => sumTo (fun j => sumTo (fun k => dy * dz * (dx * ((a [(i:Int) + 1, (j:Int), (k:Int)]
+      - 2 * a [(i:Int), (j:Int), (k:Int)] + a [(i:Int) - 1, (j:Int), (k:Int)]) / (dx * dx)))) l) m) n = 0 := by
+    rw [sumTo_comm]
+    rw [sumTo_congr _ (fun _ => (0:K)) m (by
+      intro j _ _
+      rw [sumTo_comm]
+      rw [sumTo_congr _ (fun _ => (0:K)) l (by
+        intro k _ _
+        rw [sumTo_mul_left]
+        have := d2_fun_sum dx hdx (fun i => a [i, (j:Int), (k:Int)]) n
+        rw [this, hx0, hx1]; simp), sumTo_zero]), sumTo_zero]
+  have hY : sumTo (fun i => sumTo (fun j => sumTo (fun k => dx * dz * (dy * ((a [(i:Int), (j:Int) + 1, (k:Int)]
+      - 2 * a [(i:Int), (j:Int), (k:Int)] + a [(i:Int), (j:Int) - 1, (k:Int)]) / (dy * dy)))) l) m) n = 0 := by
+    rw [sumTo_congr _ (fun _ => (0:K)) n (by
+      intro i _ _
+      rw [sumTo_comm]
+      rw [sumTo_congr _ (fun _ => (0:K)) l (by
+        intro k _ _
+        rw [sumTo_mul_left]
+        have := d2_fun_sum dy hdy (fun j => a [(i:Int), j, (k:Int)]) m
+        rw [this, hy0, hy1]; simp), sumTo_zero]), sumTo_zero]
+  have hZ : sumTo (fun i => sumTo (fun j => sumTo (fun k => dx * dy * (dz * ((a [(i:Int), (j:Int), (k:Int) + 1]
+      - 2 * a [(i:Int), (j:Int), (k:Int)] + a [(i:Int), (j:Int), (k:Int) - 1]) / (dz * dz)))) l) m) n = 0 := by
+    rw [sumTo_congr _ (fun _ => (0:K)) n (by
+      intro i _ _
+      rw [sumTo_congr _ (fun _ => (0:K)) m (by
+        intro j _ _
+        rw [sumTo_mul_left]
+        have := d2_fun_sum dz hdz (fun k => a [(i:Int), (j:Int), k]) l
+        rw [this, hz0, hz1]; simp), sumTo_zero]), sumTo_zero]
+  rw [hX, hY, hZ]; simp
+
 /-- cylindrical Laplacian with the volumes `2 dr r_i dz` (factor `π` dropped): the integral is the
 sum of the radial and axial face fluxes, for any `n × m` cells and any inner radius -/
 theorem cyl_laplace_sum (r : Int → K) (dr dz : K) (hdr : dr ≠ 0) (hdz : dz ≠ 0) (a : Arr K) (n m : Nat)
